@@ -1040,6 +1040,10 @@ fn trigger_update<M: AsRef<[Machine]>>(
     is_client: bool,
 ) {
     let trigger_delay = state.trigger_delay();
+    #[cfg(feature = "verif")]
+    if verif::is_enabled() && !state.framework.verif_is_enabled() {
+        state.framework.verif_enable();
+    }
 
     // parse actions and update
     for action in state
@@ -1136,6 +1140,18 @@ fn trigger_update<M: AsRef<[Machine]>>(
                 }
             }
         };
+    }
+    #[cfg(feature = "verif")]
+    if verif::is_enabled() {
+        let steps = state.framework.verif_take();
+        let snapshot = state.framework.verif_snapshot();
+        verif::rec(|| verif::Rec::Framework {
+            client: is_client,
+            time: *current_time,
+            event: next.event.clone(),
+            steps,
+            snapshot,
+        });
     }
 }
 
